@@ -28,6 +28,7 @@ type dirRT struct {
 	readEnd    string // "", "eof", "err:...", "done"
 	expected   int64  // what the script intends to write
 	lastProg   time.Duration
+	completeAt time.Duration // when read reached expected (0: not yet)
 	timeouts   int
 }
 
@@ -43,6 +44,7 @@ type sessRT struct {
 	dirs     [2]*dirRT // 0: c2s, 1: s2c
 	sready   chan struct{}
 	readDone [2]chan struct{} // closed when the reader of that direction has read everything expected
+	wrDone   [2]chan struct{} // closed when the writer of that direction has returned from its last Write
 	closing  chan struct{}    // closed when the harness starts closing the session
 	closeOne sync.Once
 	dialErr  string
@@ -75,6 +77,7 @@ func (w *World) newSession(c *clientRT, s *spec.Session) *sessRT {
 	for d := 0; d < 2; d++ {
 		rt.dirs[d] = &dirRT{prf: newPRF(w.Spec.Seed, connKey, d)}
 		rt.readDone[d] = make(chan struct{})
+		rt.wrDone[d] = make(chan struct{})
 	}
 	for _, n := range s.C2S.Writes {
 		rt.dirs[0].expected += int64(n)
@@ -148,6 +151,7 @@ func (rt *sessRT) runEnd(conn net.Conn, isClient bool) {
 	go func() {
 		defer inner.Done()
 		defer close(writerDone)
+		defer close(rt.wrDone[wd])
 		rt.writer(conn, rt.dirs[wd], script, isClient)
 	}()
 	go func() {
@@ -164,8 +168,12 @@ func (rt *sessRT) runEnd(conn net.Conn, isClient bool) {
 		if rt.spec.Closer == me {
 			<-writerDone
 			// Wait until both readers have everything (or gave up).
+			// (and both writers have returned: in 0-RTT mode the client's first
+			// Write returns only after it has read the server's SOCKS reply)
 			waitOrCap(rt.readDone[0], w, 10*time.Minute)
 			waitOrCap(rt.readDone[1], w, 10*time.Minute)
+			waitOrCap(rt.wrDone[0], w, 10*time.Minute)
+			waitOrCap(rt.wrDone[1], w, 10*time.Minute)
 			time.Sleep(time.Duration(max64(rt.spec.CloseDelayUs, 1)) * time.Microsecond)
 			rt.closeOne.Do(func() { close(rt.closing) })
 			conn.Close()
@@ -282,6 +290,9 @@ func (rt *sessRT) reader(conn net.Conn, dr *dirRT, sc *spec.Script, rd int, isCl
 			dr.mu.Lock()
 			dr.lastProg = time.Since(w.start)
 			full := dr.read >= dr.expected
+			if full && dr.completeAt == 0 {
+				dr.completeAt = dr.lastProg
+			}
 			dr.mu.Unlock()
 			if full {
 				signalDone()
